@@ -229,6 +229,10 @@ func checkC06(c *core.Ctx) {
 	narrowGuardAgreement(c, r3)
 	r4 := c.Rule("R6.4", "T", "a serializer links an extension header in front of the upper-layer protocol only under a guard that fails once it is linked")
 	chainInsertGuarded(c, r4)
+	r6 := c.Rule("R6.6", "D", "bit-level codec agreement: a field bit taken from bit p of byte k by DecodeFromBytes is written to bit p of byte k by SerializeTo")
+	bitCodecAgreement(c, r6)
+	r7 := c.Rule("R6.7", "T", "a length field derived from len(b.Bytes()) is computed before the serializer appends padding behind the payload")
+	lengthBeforePadding(c, r7)
 	r5 := c.Rule("R6.5", "T", "a list written element by element with PrependBytes is walked from its last element down")
 	listOrderUnderPrepend(c, r5)
 	sl := p.Iface("", "SerializableLayer")
